@@ -24,10 +24,16 @@ asks for a whole read block (`defaultReadBlockSize`) of free space before every 
 only a socket read arms the read deadline — so a packet longer than `cap - rblock` that arrives in
 small pieces parks receiver and processor for good (defect F3, `ChunkWedge`).
 
-Two switches reproduce repaired behaviour for the closed counterexamples of `Properties/C16.lean`:
-`Cfg.d2` (a ring wait loop woken by `Close` returns end-of-stream with its mutex still locked —
-defect D2/F2) and `Cfg.stopProg` (the statement order of `stop()`, e.g. with the old final
-"clear in/out" step — defect F1 — or with `wgStopped.Wait` before the `Close` calls).
+When `ReadFrom` ends with an error (it always does: keep-alive deadline, reset, EOF, ring closed)
+the receiver closes the socket before it returns (repair b77088f, finding F7): a sender blocked in
+`conn.Write` fails, its deferred `Close` closes the outgoing ring, and a processor parked in
+`WriteWait` on the connection's OWN outgoing ring comes back with end-of-stream.
+
+Three switches reproduce the behaviour before a repair for the closed counterexamples of
+`Properties/C16.lean`: `Cfg.d2` (a ring wait loop woken by `Close` returns end-of-stream with its
+mutex still locked — defect D2/F2), `Cfg.stopProg` (the statement order of `stop()`, e.g. with the
+old final "clear in/out" step — defect F1 — or with `wgStopped.Wait` before the `Close` calls) and
+`Cfg.recvCloses` (false: the receiver before b77088f, which returned without closing the socket — F7).
 -/
 namespace Mqtt.Model.Lifecycle
 
@@ -60,6 +66,7 @@ structure Cfg where
   wblock : Nat                 -- defaultWriteBlockSize: the sender peeks at most this much
   d2 : Bool := false           -- OLD ring (before 584775d): wait loops return EOF holding their mutex
   stopProg : List StopOp := stopProgram
+  recvCloses : Bool := true    -- false = OLD receiver (before b77088f): returns without conn.Close()
 deriving Repr
 
 /-! ## The ring at call level -/
@@ -156,12 +163,14 @@ inductive KPc where
   | finished
 deriving DecidableEq, Repr
 
-/-- receiver: `svc.in.ReadFrom(conn)` in a loop, `defer bf.Close()`, `defer wgStopped.Done()` -/
+/-- receiver: `svc.in.ReadFrom(conn)` in a loop (`defer bf.Close()` inside `ReadFrom`), on its error
+`conn.Close()` and return, `defer wgStopped.Done()` -/
 inductive RPc where
   | space                     -- isDone test + waitForWriteSpace(defaultReadBlockSize)
   | read                      -- r.Read (arms the read deadline)
   | commit (n : Nat)          -- WriteCommit(n)
-  | close                     -- deferred in.Close()
+  | close                     -- ReadFrom's deferred in.Close()
+  | connClose                 -- receiver: `if err != nil { conn.Close(); return }`  (b77088f)
   | wgDone                    -- deferred wgStopped.Done()
   | exited
 deriving DecidableEq, Repr
@@ -282,7 +291,8 @@ def rstep (c : Cfg) (sh : Sh) (k : Nat) : RPc → Option (Sh × RPc)
     | none => none
     | some (.ok, r) => some ({ sh with inR := r }, .space)
     | some (_, r) => some ({ sh with inR := r }, .close)
-  | .close => (sh.inR.close c).map fun r => ({ sh with inR := r }, .wgDone)
+  | .close => (sh.inR.close c).map fun r => ({ sh with inR := r }, if c.recvCloses then .connClose else .wgDone)
+  | .connClose => some ({ sh with sock := .closed }, .wgDone)
   | .wgDone => some ({ sh with wg := sh.wg - 1 }, .exited)
   | .exited => none
 
@@ -473,7 +483,7 @@ def TornDown (s : St) : Bool :=
    | _ => false)
 
 def RPc.pastLoop : RPc → Bool
-  | .close => true | .wgDone => true | .exited => true | _ => false
+  | .close => true | .connClose => true | .wgDone => true | .exited => true | _ => false
 
 def SPc.pastLoop : SPc → Bool
   | .close => true | .wgDone => true | .exited => true | _ => false
@@ -501,13 +511,16 @@ def HeldByThird (s : St) : Bool :=
   s.sh.extBlocked && (match s.proc with | .acts (.foreign :: _) => true | _ => false)
 
 /-- the same with the connection in both roles: the processor is inside a write to its own
-outgoing ring while its own peer is still connected and has stopped reading -/
+outgoing ring while its own peer is still connected and has stopped reading.  NOT an exemption
+(any more): since b77088f every end of the connection the receiver can see closes the socket, so
+in a state in which nothing can run this holds only while the connection has NOT ended
+(`C16_self_held_not_ended`); with the old receiver it was a wedge (`C16_old_receiver_wedges`). -/
 def HeldBySelf (s : St) : Bool :=
   s.sh.sock == .open && !s.sh.peerReads && s.proc.inOwnWrite
 
-/-- the property's exemption: a still-open connection that has stopped reading holds up a
-delivery from this one -/
-def HeldUp (s : St) : Bool := HeldByThird s || HeldBySelf s
+/-- the property's exemption, all of it: a delivery from this connection into ANOTHER connection
+that is still open and has stopped reading -/
+def HeldUp (s : St) : Bool := HeldByThird s
 
 /-- defect F3: the receiver waits for a read block of free space, the processor for the rest of
 a packet that does not fit beside a read block; neither reads the socket -/
@@ -556,7 +569,8 @@ def rankR (wire : Nat) : RPc → Nat
   | .space => 3 * wire + 5
   | .read => 3 * wire + 4
   | .commit _ => 3 * wire + 6
-  | .close => 2
+  | .close => 3
+  | .connClose => 2
   | .wgDone => 1
   | .exited => 0
 
